@@ -25,3 +25,5 @@ def run(ctx):
     S.r10_hooks(ctx)
     from . import dumpside as D
     D.r11_3_pyyaml_tables(ctx, 'R10.6')
+    from . import round3 as R3
+    R3.r03_10_registered_is_given(ctx, 'R10.7')
